@@ -33,7 +33,10 @@ func usKids(u *openfgav1.Userset) []*openfgav1.Userset {
 	return nil
 }
 
-func usIsThis(u *openfgav1.Userset) bool { _, ok := u.GetUserset().(*openfgav1.Userset_This); return ok }
+func usIsThis(u *openfgav1.Userset) bool {
+	_, ok := u.GetUserset().(*openfgav1.Userset_This)
+	return ok
+}
 
 func usCountThis(u *openfgav1.Userset) int {
 	if usIsThis(u) {
@@ -504,6 +507,25 @@ func runC02(run *core.Run) {
 		checkJSONToDSL(run, m, "random")
 		run.SampleAt(i, n/3+1, func() any { return gen.PPModel(m) })
 	})
+	// very wide rewrites: the produced DSL carries a single line longer than 64 KiB
+	{
+		var ch []*openfgav1.Userset
+		for i := 0; i < 7000; i++ {
+			ch = append(ch, gen.Computed(c02Names[i%len(c02Names)]))
+		}
+		var refs []*openfgav1.RelationReference
+		for i := 0; i < 6000; i++ {
+			refs = append(refs, gen.RefRel("group", c02Names[i%len(c02Names)]))
+		}
+		wide := &openfgav1.AuthorizationModel{SchemaVersion: "1.1", TypeDefinitions: []*openfgav1.TypeDefinition{
+			{Type: "first"},
+			{Type: "wide", Relations: map[string]*openfgav1.Userset{"u": gen.Union(ch...), "d": gen.This()},
+				Metadata: &openfgav1.Metadata{Relations: map[string]*openfgav1.RelationMetadata{"d": {DirectlyRelatedUserTypes: refs}}}},
+			{Type: "last", Relations: map[string]*openfgav1.Userset{"r": gen.Computed("r")}}},
+			Conditions: map[string]*openfgav1.Condition{"c": {Name: "c", Expression: "x % 2 == 0", Parameters: map[string]*openfgav1.ConditionParamTypeRef{"x": {TypeName: openfgav1.ConditionParamTypeRef_TYPE_NAME_INT}}}}}
+		checkJSONToDSL(run, wide, "very wide rewrite")
+		run.Count("models_rendering_to_a_line_over_64KiB", 1)
+	}
 	maxNodes := 6
 	if run.Tier == "thorough" {
 		maxNodes = 7
